@@ -302,7 +302,7 @@ def search(rep: C.Report, tier: str, broken):
     import WallGo
     from WallGo.thermodynamics import Thermodynamics
     from WallGo.fields import Fields
-    for params in (({},) if tier == "quick" else ({}, dict(E=0.07, lam=0.12))):
+    for params in ({}, dict(E=0.07, lam=0.12)):
         for paranoid in (True, False):
             ref = models.toy1_class()(**params)
             Tc0, T0_, T1_ = ref.Tc(), ref.T0, ref.T1()
@@ -328,7 +328,7 @@ def search(rep: C.Report, tier: str, broken):
             info.update(Tc=Tc, exact=Tc0, low_table=[float(lowT.min()), float(lowT.max())], high_table=[float(highT.min()), float(highT.max())],
                         low_flags=[bool(th.freeEnergyLow.minPossibleTemperature[1]), bool(th.freeEnergyLow.maxPossibleTemperature[1])],
                         high_flags=[bool(th.freeEnergyHigh.minPossibleTemperature[1]), bool(th.freeEnergyHigh.maxPossibleTemperature[1])])
-            if lowT.max() > T1_ * (1 + 1e-6) or highT.min() < T0_ * (1 - 1e-6):
+            if lowT.max() > T1_ * (1 + 1e-5) or highT.min() < T0_ * (1 - 1e-5):   # 10 rTol: the spinodal itself is only resolved to the tracing tolerance
                 rep.violation("a phase traced by findCriticalTemperature is tabulated beyond its spinodal", info, finding_key="C11:beyond-spinodal")
             elif not (th.freeEnergyLow.maxPossibleTemperature[1] and th.freeEnergyHigh.minPossibleTemperature[1]):
                 rep.violation("a phase disappears inside the range traced by findCriticalTemperature but the end is not flagged", info,
